@@ -32,6 +32,8 @@ pub struct Node {
   pub block_ids: BTreeMap<BlockHash, String>,
   /// etching tx label -> (block height, tx index)
   pub rune_ids: BTreeMap<String, (u64, u32)>,
+  /// block id -> the (height, nonce) pair pushed in its coinbase script
+  cb_sigs: BTreeMap<String, (i64, i64)>,
   nonce: u32,
 }
 
@@ -132,6 +134,7 @@ impl Node {
       blocks: BTreeMap::new(),
       block_ids: BTreeMap::new(),
       rune_ids: BTreeMap::new(),
+      cb_sigs: BTreeMap::new(),
       nonce: 0,
     }
   }
@@ -481,7 +484,7 @@ impl Node {
     let height = self.chain.len() as u64 + 1;
     // pass 1: transactions without witnesses (txids do not depend on witnesses)
     let mut txs: Vec<Transaction> = Vec::new();
-    let cb_label = format!("c{}", spec.id);
+    let cb_label = format!("c{}", spec.dup.as_ref().unwrap_or(&spec.id));
     let mut labels = vec![cb_label.clone()];
     for (i, t) in spec.txs.iter().enumerate() {
       let tx_index = (i + 1) as u32;
@@ -572,10 +575,14 @@ impl Node {
       lock_time: LockTime::ZERO,
       input: vec![TxIn {
         previous_output: OutPoint::null(),
-        script_sig: script::Builder::new()
-          .push_int(height as i64)
-          .push_int(self.nonce as i64)
-          .into_script(),
+        script_sig: {
+          let sig = match &spec.dup {
+            Some(x) => self.cb_sigs[x],
+            None => (height as i64, self.nonce as i64),
+          };
+          self.cb_sigs.insert(spec.id.clone(), sig);
+          script::Builder::new().push_int(sig.0).push_int(sig.1).into_script()
+        },
         sequence: Sequence::MAX,
         witness: Witness::new(),
       }],
